@@ -317,4 +317,59 @@ theorem uniqueLoop_map_key {α κ : Type} [BEq κ] (k : α → κ) (hit : α →
 example : ∀ s x : ChId, ChId.setHit s x = (id s == id x) := chid_setHit_eq_beq
 
 
+/-! ## `unique_in_order` over concatenations and filters (compositional laws: the channel list of a composite is the
+    de-duplicated concatenation of its content's channel lists) -/
+
+section unique2
+variable {α : Type} [BEq α] [LawfulBEq α]
+
+omit [LawfulBEq α] in
+theorem uniqueInOrder_length_le (l : List α) : (uniqueInOrder l).length ≤ l.length :=
+  (uniqueInOrder_sublist l).length_le
+
+/-- de-duplication commutes with filtering. -/
+theorem uniqueInOrder_filter (p : α → Bool) (l : List α) :
+    (uniqueInOrder l).filter p = uniqueInOrder (l.filter p) := by
+  induction l with
+  | nil => rfl
+  | cons x xs ih =>
+    by_cases hx : p x = true
+    · simp only [uniqueInOrder, List.filter_cons, hx, if_true]
+      congr 1
+      rw [List.filter_filter, ← ih, List.filter_filter]
+      congr 1; funext y; exact Bool.and_comm _ _
+    · simp only [uniqueInOrder, List.filter_cons, hx, Bool.false_eq_true, if_false]
+      rw [List.filter_filter, ← ih]
+      apply List.filter_congr
+      intro y _
+      by_cases hy : y = x
+      · subst hy; simp [hx]
+      · simp [hy]
+
+/-- de-duplicating a concatenation: the first list's result, then what the second adds. -/
+theorem uniqueInOrder_append (l m : List α) :
+    uniqueInOrder (l ++ m) = uniqueInOrder l ++ (uniqueInOrder m).filter (fun y => !l.contains y) := by
+  induction l with
+  | nil =>
+    simp only [List.nil_append, uniqueInOrder, List.contains_nil, Bool.not_false]
+    exact (List.filter_eq_self.2 (fun _ _ => rfl)).symm
+  | cons x xs ih =>
+    simp only [List.cons_append, uniqueInOrder, ih, List.filter_append, List.filter_filter]
+    congr 2
+    apply List.filter_congr
+    intro y _
+    simp
+
+/-- listing the same content twice adds nothing. -/
+theorem uniqueInOrder_append_self (l : List α) : uniqueInOrder (l ++ l) = uniqueInOrder l := by
+  have : (uniqueInOrder l).filter (fun y => !l.contains y) = [] := by
+    apply List.filter_eq_nil_iff.2
+    intro y hy
+    have := (uniqueInOrder_mem l y).1 hy
+    simp [this]
+  rw [uniqueInOrder_append, this, List.append_nil]
+
+example : uniqueInOrder ([1, 3, 1] ++ [2, 3, 4]) = [1, 3, 2, 4] := by decide
+end unique2
+
 end Qco.C19
